@@ -348,10 +348,13 @@ def _assignlabels_flavour(sh, gi, tier, flavour):
                     o = refinegrains.refinegrains(tolerance=tol, OmFloat=False)
                     o.parameterobj = P.parameters(**pars)
                     o.loadfiltered(os.path.join(wd, "p.flt"))
+                    # grain NAMES are not their positions in the list (files with a sub-set of grains, re-ordered lists): 0,1,2,3 for the
+                    # first tolerance, 7,2,11,5 for the others
+                    names = [0, 1, 2, 3] if tol == 0.02 else [7, 2, 11, 5]
                     for pos, gidx in enumerate(order):
-                        o.grainnames.append(pos)
-                        o.ubisread[pos] = grains_all[gidx][0].copy()
-                        o.translationsread[pos] = grains_all[gidx][1].copy()
+                        o.grainnames.append(names[pos])
+                        o.ubisread[names[pos]] = grains_all[gidx][0].copy()
+                        o.translationsread[names[pos]] = grains_all[gidx][1].copy()
                     o.generate_grains()
                     o.assignlabels(quiet=True)
                     if order[0] == 0:
@@ -382,7 +385,7 @@ def _assignlabels_flavour(sh, gi, tier, flavour):
                 has = ~none & ~border
                 lab_err = np.full(len(labels), np.nan)
                 for pos in range(4):
-                    m = labels == pos
+                    m = labels == names[pos]
                     lab_err[m] = emask[pos, m]
                 wrong = has & ~(np.abs(lab_err - best) <= 1e-7)
                 if ok and wrong.any():
@@ -393,7 +396,7 @@ def _assignlabels_flavour(sh, gi, tier, flavour):
                     sh.violation("assignlabels:stored-error-not-minimum", case, {"peak": k, "drlv2": float(drl[k]), "best": float(best[k])}); ok = False
                 if ok:
                     for pos in range(4):
-                        if o.grains[(pos, os.path.join(wd, "p.flt"))].npks != int((labels == pos).sum()):
+                        if o.grains[(names[pos], os.path.join(wd, "p.flt"))].npks != int((labels == names[pos]).sum()):
                             sh.violation("assignlabels:grain-peak-count-not-histogram", dict(case, grain=pos), {}); break
                 sh.borderline += int(border.sum())
                 sh.evaluations += 1
